@@ -283,6 +283,36 @@ def capture_step(case, prob, T_n, time, dt):
     return A, b, np.array(Tnew)
 
 
+def newton_consistency(case, prob, T_start, time, dt):
+    """the step is linear, so the Jacobian the solver uses must be the derivative of its residual:
+    started from an arbitrary field, (i) every Newton iteration sees the same matrix, (ii) the
+    affine model `res = A*T - b` reproduces the residual of the next iterate, (iii) the returned
+    field solves A*T = b.  Returns list of failures."""
+    receiver, thermal, materials = mods()
+    Ts = []
+    orig_norm = thermal.la.norm
+    with Capture(thermal) as cap:
+        Tnew = prob.solve_step(np.array(T_start, copy=True), time, dt)
+    fails = []
+    A0, res0 = cap.calls[0]
+    A0 = np.asarray(A0.todense())
+    T0 = np.array(T_start, dtype=float).flatten()
+    b = A0.dot(T0) - res0
+    scale = np.max(np.abs(A0)) * (np.max(np.abs(T0)) + np.max(np.abs(Tnew)) + 1.0)
+    T = T0
+    for n, (A, res) in enumerate(cap.calls):
+        A = np.asarray(A.todense())
+        if np.max(np.abs(A - A0)) > 1e-12 * np.max(np.abs(A0)):
+            fails.append("iteration %d uses a different matrix" % n)
+        if np.max(np.abs((A0.dot(T) - b) - res)) > 1e-9 * scale:
+            fails.append("iteration %d: residual is not A*T - b (Jacobian inconsistent with residual), off by %.3e" % (
+                n, np.max(np.abs((A0.dot(T) - b) - res))))
+        T = T - np.linalg.solve(A0, res)
+    if np.max(np.abs(A0.dot(np.array(Tnew).flatten()) - b)) > 1e-7 * scale:
+        fails.append("returned field does not solve the captured system")
+    return fails
+
+
 def compare_system(A_real, b_real, A_model, b_model, T_scale):
     """entry-wise comparison; returns list of textual differences"""
     diffs = []
@@ -327,14 +357,20 @@ def matrix_correspondence(ctx, cases, label):
     drv = common.LeanDriver(["SrModel.Thermal"])
     lines, kept = [], []
     crashed = []
+    incons = []
     for c in cases:
         try:
-            prob, tube, mat, fluid = problem(c, atol=1e-7)
+            prob, tube, mat, fluid = problem(c, atol=auto_atol(c), rtol=1e-13)
             T_n = initial_field(prob, c)
             time, dt = float(c.times[1]), float(c.times[1] - c.times[0])
             A, b, Tnew = capture_step(c, prob, T_n, time, dt)
+            # Jacobian/residual consistency from an arbitrary (non-equilibrium) starting field
+            Tr = np.array([dyadic(ctx.rng, 300.0, 900.0) for _ in range(int(np.prod(prob.dim)))]).reshape(prob.dim)
+            fails = newton_consistency(c, prob, Tr, time, dt)
+            if fails:
+                incons.append((c, fails))
         except RuntimeError as e:
-            # a step that does not converge raises (C17's business); the system was still captured?
+            # a step that does not converge raises (C17's business)
             crashed.append((c, repr(e)))
             continue
         lines.append(request_line(c, prob, tube, mat, fluid, T_n, time, dt))
@@ -353,13 +389,26 @@ def matrix_correspondence(ctx, cases, label):
             bad.append((c, diffs))
     ctx.obligation("correspondence (%s): assembled system of real solve_step == SrModel.Thermal rows" % label,
                    not bad, "%d of %d differ; first: %s" % (len(bad), len(kept), bad[0][1][:2] if bad else ""))
+    ctx.obligation("Newton iteration of the real solve_step is consistent (Jacobian = derivative of residual; returned field solves the captured system)",
+                   not incons, "%d of %d inconsistent; first: %s" % (len(incons), len(kept), incons[0][1][:2] if incons else ""))
+    ctx.obligation("real solve_step converges on the generated well-posed steps (at most 10%% raise)",
+                   len(crashed) * 10 <= len(cases), "%d of %d raised; first: %s" % (len(crashed), len(cases), crashed[0][1] if crashed else ""))
     ctx.extra["traces_validated_against_impl"] = ctx.extra.get("traces_validated_against_impl", 0) + len(kept)
     if crashed:
         ctx.notes.append("%d generated steps raised in the real solver (not compared): %s" % (len(crashed), crashed[0][1]))
-    return bad
+    return bad + [(c, f) for c, f in incons] + ([(crashed[0][0], ["real solver raised: " + crashed[0][1]])] if len(crashed) * 10 > len(cases) else [])
 
 
-def run_history(case, substep=1, atol=1e-8, rtol=1e-12, miter=30):
+def auto_atol(case):
+    """absolute Newton tolerance scaled to the size of the system entries times temperatures"""
+    dtmax = float(np.max(np.diff(case.times)))
+    dr = case.t / (case.nr - 1)
+    amax = float(np.max(case.mat_a)) if not case.steady else float(np.max(case.mat_k))
+    return 1e-9 * 2000.0 * (1.0 + (1.0 if case.steady else dtmax) * amax / dr ** 2 * 8)
+
+
+def run_history(case, substep=1, atol=None, rtol=1e-13, miter=30):
+    atol = auto_atol(case) if atol is None else atol
     """step the real problem through its whole time grid, one solve_step per sub-step;
     returns list of (T_before, T_after, time, dt, prob-snapshot-of-coefficients)"""
     prob, tube, mat, fluid = problem(case, atol=atol, rtol=rtol, miter=miter)
